@@ -392,6 +392,9 @@ if BASE_CURRENCY is not None:
     #   c_to_base = base_to_dollar/c_to_dollar
     #             = (base/dollar)/(currency/dollar)
     #             = base/currency
+    def taken(sym, name):
+        return (sym in SYMBOL_TO_UNIT or name in NAME_TO_UNIT
+                or name + "s" in NAME_TO_UNIT)
     for c in CURRENCY_DATA:
         mul = base.dollar_rate/c.dollar_rate
         # A unit name has to be an identifier, or it can't be typed
@@ -409,7 +412,12 @@ if BASE_CURRENCY is not None:
         sym = cname if c.symbol in SYMBOL_TO_UNIT else c.symbol
         if sym in SPECIAL_NAMES:
             name = SPECIAL_NAMES[sym]
+        if taken(sym, name):
+            # Still clashes with an existing unit: leave it out rather
+            # than trip the assertions in register_unit.
+            continue
         register_unit(sym, name, "cash", CASH, multiple=mul)
         if sym in SPECIAL_CURRENCY_SYMBOLS:
             special_sym = SPECIAL_CURRENCY_SYMBOLS[sym]
-            register_unit(special_sym, special_sym, "cash", CASH, multiple=mul)
+            if not taken(special_sym, special_sym):
+                register_unit(special_sym, special_sym, "cash", CASH, multiple=mul)
